@@ -22,6 +22,7 @@ def run_check(pid, patch, tier="quick"):
                       clause=(f.get("clause") if isinstance(f, dict) else str(f))[:300] if f else None,
                       minimized=bool(j.get("detail", {}).get("minimized_case")))
     shutil.rmtree(d, ignore_errors=True)
+    subprocess.run(['/verif/tools/regen.sh'], capture_output=True)
     return verdict, detail
 
 for pid in sys.argv[1:]:
